@@ -5,7 +5,7 @@ import os
 import sys
 
 from mc import decobs, shapes
-from mc.core import pmap, short_hash
+from mc.core import pmap, short_hash, run_tasks
 from mc.decobs import typed
 from props.chaincommon import ast_of_tables, tables_of_ast
 from ref import chains, decmodel
@@ -174,12 +174,10 @@ def run(ctx):
     order = list(range(len(sets)))
     ctx.rng.shuffle(order)
     packs = [[sets[j] for j in order[i:i + 50]] for i in range(0, len(order), 50)]
-    for r in pmap(work_pack, packs, ctx.workers):
-        ctx.absorb(r)
+    run_tasks(ctx, work_pack, packs)
     # every <=1-line-per-particle scenario and all spines also unpacked
     small = [t for t in sets if sum(len(v) for v in t.values()) <= 2][: 400 if not ctx.thorough else None] + list(shapes.spine_table_sets())
-    for r in pmap(work_unpacked, [small[i:i + 10] for i in range(0, len(small), 10)], ctx.workers):
-        ctx.absorb(r)
+    run_tasks(ctx, work_unpacked, [small[i:i + 10] for i in range(0, len(small), 10)])
     ctx.count(states=len(sets), transitions=sum(sum(len(v) + 1 for v in t.values()) for t in sets))
     ctx.part("generated", table_sets=len(sets), unpacked=len(small), level=2 if ctx.thorough else 1, complete=True)
     if ctx.thorough:
@@ -187,8 +185,7 @@ def run(ctx):
             p, tables = master(fn)
             ms = list(tables)
             chunks = [(fn, ms[i:i + 12]) for i in range(0, len(ms), 12)]
-            for r in pmap(work_master, chunks, ctx.workers):
-                ctx.absorb(r)
+            run_tasks(ctx, work_master, chunks)
             ctx.count(states=len(ms), transitions=len(ms))
             ctx.part("master:" + os.path.basename(fn), mothers=len(ms), node_limit=20000)
     ctx.extra["bound_completed"] = {"universe": "M>X>Y(>Z)", "max_daughters": 3, "max_lines": "2 (+ spines: 8 lines, 7 daughters, depth 4)"}
